@@ -116,6 +116,17 @@ def run(tier, t0):
     walk_bound(res, prog)
     optional_streams(res, prog)
     limits_filter(res, prog)
+    # C03.7 (shared with C04.4): every register name the unwinders put into a validity set, or look up, exists in the
+    # context's tables - a name that does not (seed C03g: "s8" among the MIPS callee-saved registers) reaches the
+    # unreachable!() arm of get_register_always through CpuContext::get_register, two crates away
+    from . import C04
+    tmp = harness.Result('C03')
+    C04.names_and_spellings(tmp, prog, prog.crate('minidump_unwind'))
+    res.rule('C03.7', tmp.rules.get('C04.4', {}).get('instances', 0), floor=30, note='(shared with C04.4) register names used by the unwinders exist in the context tables, so get_register_always is never reached with an unknown name')
+    for v in tmp.violations:
+        if v['rule'] == 'C04.4':
+            res.violations.append(dict(v, rule='C03.7', key=v['key'].replace('C04.4', 'C03.7')))
+    res.errors += [dict(e, rule='C03.7') for e in tmp.errors if e['rule'] == 'C04.4']
     res.extra['derive_generated_functions_skipped'] = derived
     res.assumptions += [
         'usize is 64 bits wide (interval rule D2)',
